@@ -61,3 +61,20 @@ PROPS["C01"] = {
     "quick": {"cases": 1500000, "floor_evaluations": 1000000, "floor_nontrivial": 300000},
     "thorough": {"cases": 20000000, "floor_evaluations": 5000000},
 }
+
+DIALECT_ROWS = ["dial0000", "dial1111", "dial1010", "dial0101"]
+PROPS["C10"] = {
+    "title": "deserializeJson accepts exactly the documented dialect and classifies the rest",
+    "src": "c10.cpp",
+    "level": "exploration",
+    "technique": "differential testing against an independent three-valued dialect reference parser: bounded-exhaustive token sequences, every byte value at escape/hex positions, generated dialect texts and mutations; 4 build configurations",
+    "rule": "sweep: every sequence of <= N tokens over a 26-token alphabet (brackets, separators, quoted/single-quoted/unquoted strings, numbers, keywords, blanks, comments, NaN, Infinity, lone '-', unterminated string, cut \\u escape, '%', NUL) at nesting limit 10, and at limits 0/1/2 for sequences of <= M tokens, plus every byte value at each \\uXXXX hex position and after a backslash in 4 string contexts; random: dialect-mode spellings of generated values and 1-3 byte-level mutations of them, nesting limit from {0,1,2,3,5,10}. Non-trivial (sweep) = >= 3 tokens, not EmptyInput and not failing at its first token, counted per distinct token sequence; non-trivial (random) = every text, distinct by hash of (text, limit). Inputs in declared don't-care zones are executed for safety and counted under excluded_unspecified.",
+    "level_text": "Both directions of 'exactly' are decided against a reference acceptor written from the property text: nothing outside the dialect may be accepted, nothing inside rejected, and each rejection must carry the code the classification rules give. The token-sequence space up to the stated length is enumerated completely per configuration row (exhaustive sub-space); beyond it, random texts and mutations.",
+    "level_note": "Trusts the reference parser (ref/json_ref.hpp, 3.4% of the swept inputs fall in declared zones where two outcomes are admitted) and glibc strtod for number values. Only 4 of the 16 option combinations are built (pairwise covering).",
+    "quick": {"configs": DIALECT_ROWS, "cases": 200000, "sweep": True, "params": {"toklen": 5, "toklen_limits": 4},
+              "exhaustive_claim": True, "exhaustive_note": "all token sequences of length <= 5 over the 26-token alphabet (limit 10; limits 0,1,2 for length <= 4) and all byte values at hex/escape positions, per configuration row",
+              "floor_evaluations": 40000000, "floor_nontrivial": 1000000},
+    "thorough": {"configs": DIALECT_ROWS, "cases": 8000000, "sweep": True, "params": {"toklen": 6, "toklen_limits": 5},
+                 "exhaustive_claim": True, "exhaustive_note": "all token sequences of length <= 6 (limits 0,1,2 for length <= 5), per configuration row",
+                 "floor_evaluations": 100000000, "fuzz_s": 300},
+}
